@@ -96,6 +96,35 @@ def uniq_scope(ctx: Ctx) -> List[Ob]:
                                       "(invisible) root never compares equal to it: top-level conflicts are missed"))
                 elif len(prop) == 2:
                     obs.append(ctx.ob("UNIQ-SCOPE", ["C03"], f, f"`.parent` compared with `.parent` in {f.qualname}", n, True))
+    # set_data(with_clones=True) renames every clone: each refusal that can be reached with with_clones set sits in a scan over the clone list
+    try:
+        from .util import cond_texts, path_conds, resolve_expr
+
+        f = m.func("Node.set_data")
+        raises = [r for r in ast.walk(f.node) if isinstance(r, ast.Raise) and raised_class(r) == "UniqueConstraintError"]
+        ok: Optional[bool] = True if raises else None
+        for r in raises:
+            texts = cond_texts(path_conds(ctx, f, r))
+            if any(t in ("not with_clones", "with_clones is None", "with_clones is False") or t.startswith("not with_clones") for t in texts):
+                continue  # only this node changes on that path
+            encl = []
+            cur = m.parent_of(r)
+            while cur is not None and cur is not f.node:
+                if isinstance(cur, ast.For):
+                    encl.append(cur)
+                cur = m.parent_of(cur)
+            its = [norm(resolve_expr(ctx, f, lp, lp.iter)) for lp in encl]
+            if any("_nodes_by_data_id[self._data_id]" in t or "get_clones(" in t for t in its):
+                continue  # the scan runs once per clone
+            mentions_self = any("self._parent" in t for t in its) or any("self._parent" in t for t in texts)
+            if mentions_self and not any("with_clones" in t and not t.startswith("not (") for t in texts):
+                ok = False  # witness: refusal decided from this node's own parent alone although all clones are renamed
+            elif ok:
+                ok = None
+        obs.append(ctx.tri("UNIQ-SCOPE", ["C03"], f, "set_data(with_clones=True) checks the new data_id below the parent of every clone it renames", None, ok,
+                           "the refusal looks at `self._parent` only: a conflict below another clone's parent is accepted and two siblings share a data_id"))
+    except AnalysisError:
+        raise
     return obs
 
 
